@@ -253,6 +253,7 @@ static void run_common (run_ctx *c, rt_config *cfg, interp_result *res) {
 	hooks.at_quiescence = f->at_quiescence;
 	hooks.finish = f->finish;
 	hooks.arg = c;
+	hooks.on_free = (c->family == FAM_NOTEFREE) ? &nf_on_free : NULL;
 	c->res = res;
 	if (c->family == FAM_ALLOC) {
 		/* fail every allocation made from the constructors' own call sites in turn (exhaustive per script) */
